@@ -1508,11 +1508,14 @@ def _get_resources_by_hrefs(
     Returns: iterator over (href, resource) tuples
     """
     paths: dict[str, str] = {}
+    outside: set[Optional[str]] = set()
     for href in hrefs:
         path = href_to_path(environ, href)
         if path is not None:
             paths[path] = href
-        else:
+        elif href not in outside:
+            # Like hrefs inside the namespace: one answer per distinct href
+            outside.add(href)
             yield (href, None)
 
     for relpath, resource in backend.get_resources(paths):
